@@ -1,6 +1,6 @@
 (* Dec/SimTop.v - the simulation theorem at the entry points: for every destination type of the fragment `simf`
-   (bool, every integer width, float32, float64, string, interface{}, pointers and slices of those, nested
-   arbitrarily) the compiled program `compile t`, run by the IL interpreter with CheckTrailings, and the tree-level
+   (bool, every integer width, float32, float64, string, interface{}, pointers, slices and fixed arrays of those,
+   nested arbitrarily; destinations well shaped: an array value has exactly its N elements) the compiled program `compile t`, run by the IL interpreter with CheckTrailings, and the tree-level
    binder `sonic_unmarshal Jit` give the same result on every input, option set, initial value and hash - unless
    one of the two answers Unk (the interpreter ran out of its fuel, or the binder is outside its fragment:
    escape validation of skipped text under ValidateString). *)
@@ -24,14 +24,15 @@ Section Top.
     - split; apply Sim_numt; exact Logic.I.
     - split; apply Sim_str.
     - destruct (IHt F) as [S1 _]. split; apply Sim_slice; assumption.
+    - destruct (IHt F) as [S1 _]. split; apply Sim_arr; assumption.
     - destruct (IHt F) as [_ S2]. split; [apply Sim_ptr; exact S2|exact S2].
     - split; apply Sim_any.
   Qed.
 
-  Theorem il_sim : forall t s v, simf t = true ->
+  Theorem il_sim : forall t s v, simf t = true -> shape t v ->
     compat (il_unmarshal h o t s v) (sonic_unmarshal h Jit o t s v).
   Proof.
-    intros t s v F. rewrite sonic_unmarshal_after. unfold il_unmarshal. fold (pre o s).
+    intros t s v F SHV. rewrite sonic_unmarshal_after. unfold il_unmarshal. fold (pre o s).
     rewrite (compile_one t (simf_ilf t F)).
     set (P := I OP_lspace 0 0 TBool :: code t 1).
     set (st0 := mkSt (pre o s) v [] t [] None false).
@@ -41,7 +42,7 @@ Section Top.
       assert (EP : P = [] ++ one t (length (@nil instr)) ++ []) by (unfold one, P; rewrite app_nil_r; reflexivity).
       assert (R' : exec h o (exec_fuel P (pre o s)) P (one t (length (@nil instr)) ++ []) st0 = Ok s1).
       { rewrite app_nil_r. exact R. }
-      destruct (proj1 (sim_all t F) P [] [] EP _ st0 (Ok s1) eq_refl Logic.I R' NU) as [A B].
+      destruct (proj1 (sim_all t F) P [] [] EP _ st0 (Ok s1) eq_refl Logic.I SHV R' NU) as [A B].
       unfold after. cbn [st0 s_in] in A, B.
       destruct (pvalue (parse_fuel (pre o s)) (o_validate o) (pre o s)) as [[j rest]|] eqn:PVc.
       + assert (PVx : PV o (pre o s) (j, rest)) by (eexists; exact PVc).
@@ -64,7 +65,7 @@ Section Top.
       assert (EP : P = [] ++ one t (length (@nil instr)) ++ []) by (unfold one, P; rewrite app_nil_r; reflexivity).
       assert (R' : exec h o (exec_fuel P (pre o s)) P (one t (length (@nil instr)) ++ []) st0 = Err).
       { rewrite app_nil_r. exact R. }
-      destruct (proj1 (sim_all t F) P [] [] EP _ st0 Err eq_refl Logic.I R' NU) as [A _].
+      destruct (proj1 (sim_all t F) P [] [] EP _ st0 Err eq_refl Logic.I SHV R' NU) as [A _].
       assert (PVx : PV o (pre o s) (j, rest)) by (eexists; exact PVc).
       specialize (A j rest PVx). change (cur st0) with v in A.
       destruct (sonic_bind h Jit o t j v) as [x| |] eqn:Bd.
@@ -75,7 +76,7 @@ Section Top.
 
   (* with C01_bind_agree: on the common fragment the compiled program agrees with encoding/json *)
   Theorem il_sim_vs_std : forall t s v,
-    simf t = true -> frag t = true -> input_ok o s -> (forall j, parse s = Some j -> guards o j) ->
+    simf t = true -> shape t v -> frag t = true -> input_ok o s -> (forall j, parse s = Some j -> guards o j) ->
     match parse s with
     | Some j => compat (il_unmarshal h o t s v) (std_unmarshal o t s v)
     | None => std_unmarshal o t s v = Err /\
@@ -83,7 +84,7 @@ Section Top.
                skipped_only_structural h o t s v)
     end.
   Proof.
-    intros t s v F1 F2 I G. pose proof (bind_agree_top h o t s v F2 I G) as A. pose proof (il_sim t s v F1) as C.
+    intros t s v F1 SHV F2 I G. pose proof (bind_agree_top h o t s v F2 I G) as A. pose proof (il_sim t s v F1 SHV) as C.
     destruct (parse s) as [j|].
     - rewrite <- A. exact C.
     - destruct A as [A1 A2]. split; [exact A1|].
